@@ -1,5 +1,5 @@
 (* C14 - Corrupt or hostile unwind data never panics framehop's own code. *)
-From FH Require Import Consts Word X86 A64 Unwinder X86Unw A64Unw X86Exec HostileFacts Create.
+From FH Require Import Consts Word X86 A64 Unwinder X86Unw A64Unw X86Exec HostileFacts Create DwarfRow.
 From Coq Require Import Lia.
 Open Scope N_scope.
 
@@ -43,6 +43,19 @@ Print Assumptions C14_section_ranges_total.
 Theorem C14_section_ranges_bare_refuted :
   pe_rva_range false 4096 4095 8192 = Panic S_create_sub /\ macho_rel_range false 4096 4095 8192 = Panic S_create_sub.
 Proof. split; reflexivity. Qed.
+
+(* The expression evaluator runs under a bound (regenerated from eval_expr's body on every run: if the source stops
+   setting one, EXPR_MAX_ITERATIONS becomes None and this theorem fails).  A bounded evaluator cannot be kept busy
+   by a backward DW_OP_skip / DW_OP_bra - which is how hostile CFI hung unwind_frame before the fix for S22; the
+   model's expressions are straight-line, for them the bound reads: longer than the bound means failure. *)
+Theorem C14_expression_evaluation_is_bounded :
+  exists k, EXPR_MAX_ITERATIONS = Some k /\
+            forall getreg e, k < N.of_nat (length e) -> eval_expr getreg e = None.
+Proof.
+  unfold eval_expr, expr_too_long. destruct EXPR_MAX_ITERATIONS as [k|] eqn:E; [|discriminate E].
+  exists k. split; [reflexivity|]. intros getreg e H. destruct (k <? N.of_nat (length e)) eqn:L; [reflexivity | lia].
+Qed.
+Print Assumptions C14_expression_evaluation_is_bounded.
 
 (* non-vacuity: a self-chained unwind info, a function entry that ends before it begins and a text
    view shorter than its range - all answered with the frame-pointer fallback, not a panic *)
